@@ -1,8 +1,55 @@
 # configuration of the C18 check (driver) and its MANIFEST entry
 
+# minimum coverage counters: half of the smallest value seen on the unchanged tree at seeds 1,2,3,7,42 (quick tier)
+MIN_COV = {}
+
 CFG = {
- 'rule': 'wip',
- 'min_cov': {},
+ 'rule': 'ROUND TRIPS: (json.scalar) every mutable scalar type x value class {+-0, smallest/random subnormal, smallest normal, +-max, random bit pattern, '
+         'long decimal, integer at 2^24/2^31/2^53/2^63 boundaries, power of ten; integers: 0, +-1, min, max, min+1, max-1, full-range random, beyond 2^53} '
+         'x derivative class {none, allocated-zero, gradient, gradient+Hessian, zero gradient+Hessian, gradient+zero Hessian} x fresh/dirty target; '
+         '(json.scalar-const) the seven constant scalar types, MarshalJSON executed in a child process (an unbounded recursion cannot be recovered in-process); '
+         '(json.vector, json.matrix, table.vector, table.matrix) every element type x dense/sparse(/sparse-const) x view {full, slice, slice of slice, '
+         'row/col/diag of a matrix, row of a transposed/sliced matrix, appended; matrices: full, slice, T, slice.T, T.slice, slice.slice, T.T, slice.T.slice, '
+         'vector.AsMatrix} x fresh/dirty target x plain/gzip; (config.dist) every distribution family of statistics/{scalar,vector,matrix}Distribution '
+         '(42 families incl. mixtures of wrapped distributions, HMM / constrained / hierarchical / shape HMMs with state maps, start and final states, '
+         'trees of depth 1 and 2) ExportConfig -> WriteJson -> ReadJson -> Import{Scalar,Vector,Matrix}PdfConfig (ImportConfig on a zero value for the '
+         'families that are in no registry), Float64 and Real64 parameters. The decoded object is compared with the snapshot of the source taken through '
+         'the public read API: dimensions, every element value (bit-exact for dense storage, == for sparse storage which cannot carry -0), derivative '
+         'slots where the format carries them (dense Real JSON; missing slots read as 0, N/Order not compared), the set of non-zero positions visited by '
+         'the iterator (sparse); distributions: type, GetParameters, LogPdf at two probe points inside the support. A failing case is re-run from a compact '
+         'copy / into a fresh target / uncompressed to find the smallest configuration that reproduces it (this is the configuration named in the '
+         'signature). MALFORMED INPUT: (malformed.json, malformed.table, malformed.config; thorough also malformed.bytes) one textual mutation (truncate, '
+         'delete / duplicate / swap / replace a token or field or line, flip or insert a byte, empty, gzip damage) or one structural mutation (index >= '
+         'length, negative or duplicate index, length / shape mismatch, negative or zero dimensions, wrong field type, dropped field, null element, ragged '
+         'or mis-sized Hessian, ragged table, missing header, whitespace-only line; configurations: too few / null / mistyped parameters, dropped or '
+         'mistyped named fields, inconsistent N, state out of range, too few / too many / misnamed nested distributions, unknown or foreign name) of a valid '
+         'serialisation with dimensions <= 10; the mutated document is classified by an independent reading of the format (the class goes into the '
+         'signature), the decoder must return an error or an object on which every in-range read, a full iteration, String() and re-encoding succeed with '
+         'non-negative consistent dimensions (distributions: GetParameters, ExportConfig, LogPdf at the probes). non-trivial = round trip of an object with '
+         '>= 1 non-zero element (distinct by type, view, configuration and content) or a mutated document that the independent reading classifies as '
+         'defective (distinct by decoder and document)',
+ 'tolerances': 'containers and scalars: exact (bit pattern of the float64/float32 value, == for integers and derivative slots). distributions whose '
+               'parameters are stored as given: exact. distributions that keep parameters on a transformed scale (categorical, mixtures, HMMs: log '
+               'probabilities, renormalised on import): |dp| <= 8*(n+2)*2^-52*(1+|p|), n = size of the normalised group (what exp, log and a log-sum '
+               'over n terms lose); constrained HMMs: |dp| <= 1e-8*(1+|p|), the stopping residual of the Newton normalisation in '
+               'generic/constrainedHmm.go; LogPdf of these families: 4*(L+1)*max parameter tolerance + 16*2^-52*|f|, L = probe length; -Inf and NaN '
+               'must match exactly',
+ 'assumptions': ['finite values only (encoding/json rejects NaN and +-Inf); distributions whose GetParameters contains NaN are skipped and counted',
+                 'views whose construction or whose read through ConstAt panics are skipped and counted (C10 decides those)',
+                 'a whitespace table cannot carry the shape of an r x 0 or 0 x c matrix: table round trips use shapes >= 1 x 1 (JSON round trips include empty shapes)',
+                 'the source snapshot of constant sparse vectors is taken through Int64At/Float64At (ConstAt of the integer instantiations answers with a ConstFloat64)'],
+ 'min_cov': MIN_COV,
 }
 
-META = {'design_ref': 'DESIGN.md section 3, C18', 'note': 'wip', 'technique': 'runtime monitoring', 'text': 'wip'}
+META = {'design_ref': 'DESIGN.md section 3, C18',
+ 'technique': 'runtime monitoring: differential round-trip oracle on observable-state snapshots (exact policy) + mutation-based hostile inputs judged by an '
+              'independent classifier of the document and a consistency walk over the decoded object',
+ 'note': 'Trusted: encoding/json, compress/gzip and strconv of the Go standard library (used by the independent classifier), the snapshot reader in '
+         'harness/internal/snap, the catalogue of distribution generators in harness/c18/distcat. Known findings of this property are listed per decoder x '
+         'defect class; the witness of each is re-executed by every run.',
+ 'text': 'Every scalar, vector and matrix type (all nine element types, constant scalars, dense / sparse / sparse-const storage, slices, transposes and '
+         'nested views) is written as JSON and as a table file (plain and gzip) and read back, every distribution family is sent through ExportConfig -> '
+         'JSON -> Import; the result is compared exactly with the source (values incl. -0, subnormals, extreme magnitudes and integers at the type bounds, '
+         'derivative slots, dimensions, non-zero pattern, parameters, LogPdf). About 200k (quick) / 3M (thorough) mutated serialisations are fed to every '
+         'decoder; a decoder must answer with an error or a consistent object. Held on the executions observed, which the evidence lists per type, view, '
+         'value class, mutation class and decoder outcome; not a proof: shapes are small (<= 16 elements per axis) and one mutation is applied per document.'}
